@@ -92,3 +92,6 @@ func (r *Rand) Perm(n int) []int {
 func (r *Rand) Fork(name string) *Rand {
 	return NewRand(r.U64(), name)
 }
+
+// Pick3 returns one of the given ints.
+func (r *Rand) Pick3(xs ...int) int { return xs[r.Intn(len(xs))] }
